@@ -1,5 +1,6 @@
 import DeepModel.Driver.Proto
 import DeepModel.Model.Wire
+import DeepModel.Extracted.WireCodec
 open Lean Proto Wire Extracted.Wire
 
 /-! text: a JSON string when it is valid text (and free of the raw line separators U+0085, U+2028, U+2029, on which
@@ -178,22 +179,70 @@ def wireJ : Wire.Wire → Json
   | .pushed c => Json.mkObj [("kind", "pushed"), ("request", snapshotJ c.request), ("metadata", mdJ c.metadata)]
   | .dropped => Json.mkObj [("kind", "dropped")]
 
+/-! the wire: `hex` = the bytes the real runtime produced for the same message.  `decoded` = the model's reading of
+    them, `reencoded` = the model's bytes for what it read, `encoded` = the model's bytes for the CONVERTED message
+    with its map entries in the order the real serialiser chose (map order is not part of the wire contract),
+    `wire_roundtrip` = the model decodes its own bytes to the message it encoded. -/
+def reorderLike {α β} (like : List (Text × β)) (kvs : List (Text × α)) : List (Text × α) :=
+  let hit := like.filterMap (fun kb => kvs.find? (fun kv => kv.1 == kb.1))
+  hit ++ kvs.filter (fun kv => !(like.any (fun kb => kb.1 == kv.1)))
+
+def hexOf (j : Json) : Option Bytes := ((j.getObjVal? "hex").toOption.bind (fun h => h.getStr?.toOption)).map ofHex
+
+def snapshotWire (m : Option PSnapshot) (bs : Bytes) : List (String × Json) :=
+  let dec := decSnapshot bs
+  let enc := match m with
+    | none => Json.null
+    | some msg =>
+      let msg' := match dec with
+        | some d => { msg with var_lookup := reorderLike d.var_lookup msg.var_lookup,
+                               tracepoint := msg.tracepoint.map (fun tp =>
+                                 { tp with args := reorderLike ((d.tracepoint.map (·.args)).getD []) tp.args }) }
+        | none => msg
+      Json.str (toHex (encRecs (encSnapshot msg')))
+  let rt := match m with
+    | none => Json.null
+    | some msg => Json.bool (((decSnapshot (encRecs (encSnapshot msg))).map (fun d => (snapshotJ d).compress))
+                              == some (snapshotJ msg).compress)
+  [("decoded", optJ snapshotJ dec), ("reencoded", optJ (fun d => Json.str (toHex (encRecs (encSnapshot d)))) dec),
+   ("encoded", enc), ("wire_roundtrip", rt)]
+
 def handle (j : Json) : Except String Json := do
   let op ← getStr j "op"
   match op with
+  | "decode" =>
+    -- bytes no encoder of ours produced (unknown fields, repeated singular fields, truncation, bad UTF-8, …)
+    let bs := (hexOf j).getD []
+    match (← getStr j "type") with
+    | "Snapshot" => pure (Json.mkObj [("decoded", optJ snapshotJ (decSnapshot bs))])
+    | "KeyValue" => pure (Json.mkObj [("decoded", optJ kvJ (decKeyValue bs))])
+    | "PollRequest" => pure (Json.mkObj [("decoded", optJ pollJ (decPollRequest bs))])
+    | t => throw s!"unknown message type {t}"
   | "convert" =>
     let s ← parseSnapshot (← j.getObjVal? "snapshot")
     let m := convertSnapshot s
+    let wire := match hexOf j with
+      | some bs => snapshotWire m bs
+      | none => []
     let back := match m with
       | some msg => decide ((snapshotJ (convertSnapshotRaw (projectSnapshot msg))).compress = (snapshotJ msg).compress)
       | none => false
-    pure (Json.mkObj [("msg", optJ snapshotJ m), ("reads_back", Json.bool back),
+    pure (Json.mkObj ([("msg", optJ snapshotJ m), ("reads_back", Json.bool back),
       ("collectable", Json.bool s.collectable), ("textOk", Json.bool s.textOk),
-      ("intsFit", Json.bool s.intsFit)])
+      ("intsFit", Json.bool s.intsFit)] ++ wire))
   | "value" =>
     let v ← parseVal (← j.getObjVal? "v")
     let a := convert_value v
-    pure (Json.mkObj [("any", anyJ a), ("accepts", Json.bool a.accepts), ("holdable", Json.bool v.holdable)])
+    let kv : PKeyValue := { key := Text.ofString "k", value := a }
+    let wire := match hexOf j with
+      | some bs =>
+        let dec := decKeyValue bs
+        [("decoded", optJ kvJ dec), ("reencoded", optJ (fun d => Json.str (toHex (encRecs (encKeyValue d)))) dec),
+         ("encoded", Json.str (toHex (encRecs (encKeyValue kv)))),
+         ("wire_roundtrip", Json.bool (((decKeyValue (encRecs (encKeyValue kv))).map (fun d => (kvJ d).compress))
+                                        == some (kvJ kv).compress))]
+      | none => []
+    pure (Json.mkObj ([("any", anyJ a), ("accepts", Json.bool a.accepts), ("holdable", Json.bool v.holdable)] ++ wire))
   | "auth" =>
     let c ← parseCfg (← j.getObjVal? "cfg")
     let ops ← (← getArr j "ops").toList.mapM parseOp
